@@ -116,6 +116,19 @@ Theorem C19_auto_views : forall junk sh l,
 Proof. exact auto_views. Qed.
 Print Assumptions C19_auto_views.
 
+(** history independence: in the model a history of reads and conversions (either
+    direction, any addresses, colliding frame numbers included) is answered operation by
+    operation — the answer to an operation is the same whatever precedes or follows it.
+    Trivial here because the modelled C functions keep no state between calls; the
+    correspondence run replays such histories (p2m lists whose two columns are
+    permutations of the same numbers, alternating directions on the same number) so that
+    an implementation that remembers something across calls is caught (seeded/C19-c1). *)
+Theorem C19_steps_history_independent : forall x pre op post,
+  nth_error (run_history x (pre ++ op :: post)) (length pre) = Some (do_op x op) /\
+  run_history x (pre ++ op :: post) = run_history x pre ++ do_op x op :: run_history x post.
+Proof. exact steps_history_independent. Qed.
+Print Assumptions C19_steps_history_independent.
+
 (** the code of the pinned tree ([build_gen false]: "next frame" computed
     modulo 2^64) does NOT have the property: when frame 0 follows frame
     2^64-1 the wrapped run sorts first and ends every search, so even frame 5
